@@ -57,6 +57,13 @@ def make_trees(r, tier, names, fgs):
         c1 = T.RES[nm][0]
         trees.append(("sweep", T.Node("Glc", [(r.choice("ab"), c1, 4, T.Node(nm))])))
         trees.append(("sweep", T.Node(nm, [("b", 1, r.choice([3, 4]), T.Node("Gal"))])))
+    # residues drawn from the grammar itself (any modification form), as child and as parent
+    import gen as _G
+    for d in [x for x in _G.grammar_sentences(r, 40 if tier == "quick" else 500)[::2] if "(" not in x and " " not in x]:
+        c1 = 2 if any(k in d for k in ("Neu", "Kd", "Fru", "Sor", "Tag", "Psi", "Leg", "Pse", "Aci", "Dha", "Ko", "Sia", "Rul", "Xlu", "Xul")) else 1
+        T.RES.setdefault(d, (c1, (2, 3, 4, 6), (), "grammar"))
+        trees.append(("grammar", T.Node("Glc", [(r.choice("ab"), c1, r.choice([3, 4, 6]), T.Node(d))])))
+        trees.append(("grammar", T.Node(d, [("b", 1, r.choice([3, 4]), T.Node("Gal"))])))
     # size-extended residues (root sugar + Pen/Hex/Hep/Oct, optional DD/LD/... and deoxy prefixes) in every place of a tree
     resized = [pre + b + sz + suf for b in ("Man", "Glc", "Gal", "Alt", "Ara", "Xyl", "Lyx", "Gul", "Tal", "Ido")
                for sz in ("Hex", "Hep", "Oct") for pre in ("", "LD", "DD", "DL", "LL", "6d", "4d", "D-", "L-", "3d") for suf in ("", "7P", "f")
